@@ -5,7 +5,7 @@
 From Coq Require Import String List Bool Arith ZArith QArith Qcanon.
 From AL Require Import Base.CaseLib C20.Model C20.Spec C20.Check C20.Lib.
 From AL Require Import C20.ProofsMav C20.ProofsAmdf C20.ProofsEnv C20.ProofsClip C20.ProofsZc C20.ProofsUw.
-From AL Require Import C20.ProofsLin C20.ProofsCheck C20.ProofsMulti C20.ProofsC04.
+From AL Require Import C20.ProofsLin C20.ProofsCheck C20.ProofsMulti C20.ProofsC04 C20.ProofsLive.
 Import ListNotations.
 Open Scope Qc_scope.
 
@@ -360,3 +360,13 @@ Example C20_example_c04_fir :
   end = true /\ Qc_eqb (qc 1 3) 0 = false.
 Proof. split; vm_compute; reflexivity. Qed.
 Print Assumptions C20_example_c04_fir.
+
+(* ---------------------------------------------------------------- incremental use on live sources
+   Every tool (one call, as Check.multi_model runs it: maverage x3, amdf, envelope x3, clip, zcross,
+   unwrap, accumulate x3) is causal: its first k outputs are its outputs on the first k inputs.  So on
+   a source whose items are fixed only when read, output n pulled after n+1 reads is the tool's formula
+   on the items read so far, and item n+1 is not needed for output n (read one, emit one). *)
+Theorem C20_tools_causal : forall t zero xs ys k,
+  multi_model t zero xs = Ok ys -> multi_model t zero (firstn k xs) = Ok (firstn k ys).
+Proof. exact multi_model_causal. Qed.
+Print Assumptions C20_tools_causal.
